@@ -272,3 +272,96 @@ func numStep(r *rand.Rand) uint64 {
 	}
 	return 1 + uint64(r.Intn(3))
 }
+
+// ---- round 6: cross-type pairs by splitting / merging adjacent path elements ----
+
+// mergeMirror builds a claim of type `to` whose path elements are the victim's path elements regrouped: every text
+// element of the victim is cut at its '/' characters, and consecutive pieces are glued together again with '/' into as
+// many groups as the target type has elements (a separator INSIDE a field of one claim plays the separator BETWEEN two
+// fields of the other).  Any text field may receive a glued group — also "address" fields that ValidateBasic of the
+// target type leaves unchecked.  Returns every feasible regrouping.
+func mergeMirrors(v spec, to int) []spec {
+	vals, kinds := itemsOf(v)
+	var toks, tk []string
+	for i, x := range vals {
+		if kinds[i] == "str" {
+			for _, p := range strings.Split(x, "/") {
+				toks, tk = append(toks, p), append(tk, "str")
+			}
+		} else {
+			toks, tk = append(toks, x), append(tk, kinds[i])
+		}
+	}
+	sl := slotsOf(to)
+	m := len(sl)
+	if m > len(toks) || (to == v.T) {
+		return nil
+	}
+	var out []spec
+	var rec func(slot, start int, x spec)
+	rec = func(slot, start int, x spec) {
+		if slot == m {
+			if start == len(toks) {
+				out = append(out, x)
+			}
+			return
+		}
+		maxEnd := len(toks) - (m - slot - 1)
+		for end := start + 1; end <= maxEnd; end++ {
+			g := strings.Join(toks[start:end], "/")
+			if sl[slot].kind != "str" && end-start != 1 {
+				break
+			}
+			if !fitsSlot(sl[slot].kind, g) {
+				continue
+			}
+			y := x.clone()
+			sl[slot].set(&y, g)
+			rec(slot+1, end, y)
+		}
+	}
+	rec(0, 0, spec{T: to, EventNonce: v.EventNonce, Height: v.Height, SkywayNonce: v.SkywayNonce, Chain: v.Chain, Orch: 4, BatchNonce: 1})
+	return out
+}
+
+// hostileEverywhere: two bodies of one type, one with a separator / percent sign inside a text field chosen among ALL text
+// fields of the type (token contract, sender, sale contract, client, receiver, compass id), the other with the escaped or
+// shifted spelling.
+func hostileEverywhere(r *rand.Rand, t int, nonce uint64) (spec, spec, string) {
+	a := honestSpec(r, t, nonce)
+	b := a.clone()
+	fields := map[int][]string{tDeposit: {"Token", "Sender", "Receiver", "Compass"}, tBatch: {"Token", "Compass"}, tSale: {"Client", "Contract", "Compass"}}[t]
+	i := r.Intn(len(fields))
+	ref := func(s *spec, f string) *string {
+		switch f {
+		case "Token":
+			return &s.Token
+		case "Sender":
+			return &s.Sender
+		case "Receiver":
+			return &s.Receiver
+		case "Client":
+			return &s.Client
+		case "Contract":
+			return &s.Contract
+		}
+		return &s.Compass
+	}
+	f := fields[i]
+	x, y := fmt.Sprint("u", r.Intn(9)), fmt.Sprint("w", r.Intn(9))
+	switch r.Intn(3) {
+	case 0: // escaped spelling of the same text
+		*ref(&a, f), *ref(&b, f) = x+"/"+y, x+"%2F"+y
+	case 1:
+		*ref(&a, f), *ref(&b, f) = x+"%"+y, x+"%25"+y
+	default: // boundary shift into the next text field
+		if i+1 < len(fields) {
+			g := fields[i+1]
+			*ref(&a, f), *ref(&a, g) = x+"/"+y, "z"
+			*ref(&b, f), *ref(&b, g) = x, y+"/z"
+		} else {
+			*ref(&a, f), *ref(&b, f) = x+"/"+y, x+"//"+y
+		}
+	}
+	return a, b, f
+}
